@@ -74,8 +74,13 @@ CLAIMED = {
                 "bt_run_refines / rb_run_refines against a multiset spec over arbitrary operation lists. Tied to /repo by differential "
                 "execution (closure over all shapes with <= 6-8 elements over 3-4 keys incl. duplicates, hinted inserts, every erase "
                 "case, traversals with stop at each position; seeded random histories) comparing full shape with ids and colours, "
-                "results and event lists; reference-multiset / event-structure oracle.",
-        "note": TB + " Parent links are not part of the functional model: the harness checks every child's parent link on every explored state (links=bad marker), that is not proved.",
+                "results and event lists; reference-multiset / event-structure oracle. "
+                "Second layer (lean/Cstl/TreeL): a link-level model of the pointer code (l/r/p fields, one update per C assignment, hinted "
+                "descent, erase link surgery incl. successor = right child) is proved to REFINE the functional model for every history "
+                "(bt_history_refines) with every child's parent link pointing back (bt_parent_links_ok), is compared with the real code "
+                "on the same scripts, and __cstl_bintree_rotate / __cstl_bintree_erase are re-translated from the C AST on every run "
+                "with kernel-checked `translation = model` ties.",
+        "note": TB + " cstl_bintree_insert (pointer-to-pointer) and find are tied to the link-level model by correspondence only; bintree refinements assume the (unused) colour field is black.",
         "technique": "Lean 4 proof (structural induction, refinement to a multiset spec over operation lists) + model/implementation correspondence check",
     },
     "C02": {
@@ -85,8 +90,12 @@ CLAIMED = {
                 "code dereferences always exists (run_no_segv), for every history (run_inv); height bound 2^((h+1)/2) <= n+1 and "
                 "2^h <= (n+1)^2 for every reachable tree. Tied to /repo by colour-exact differential execution (closure over all shapes "
                 "and colourings with <= 7-8 elements, random histories with heavy duplication); the harness recomputes the rules, "
-                "parent links and cstl_rbtree_height on the C tree.",
-        "note": TB + " Parent-link consistency is checked by the harness on every explored state, not proved.",
+                "parent links and cstl_rbtree_height on the C tree. Second layer (lean/Cstl/TreeL): the pointer code — rotations, the insert "
+                "and erase fix-up loops navigating upward through parent links, the stack-local stand-in node of the erase fix-up — is "
+                "modelled at link level and proved to refine the functional model for every history (rb_history_refines, never a NULL "
+                "dereference: rb_history_no_stop), with every child's parent link pointing back at its parent (rb_parent_links_ok); "
+                "compared with the real code on the same scripts (links marker exact).",
+        "note": TB + " The red-black fix-up functions are tied to the link-level model by correspondence only (the translator covers rotate and the bintree erase surgery).",
         "technique": "Lean 4 proof (inductive invariant over operation lists) + colour-exact model/implementation correspondence check",
     },
     "C08": {
@@ -140,7 +149,7 @@ CLAIMED = {
                 "Tied to /repo by differential execution (closure over all shapes up to a small size, drained after every transition, "
                 "all short histories, random histories to 1000 live elements) comparing the level-order dump with ids, results, size; "
                 "the harness checks every parent link and completeness; reference-multiset oracle.",
-        "note": TB + " promote_child's six-neighbour relinking is modelled as exchanging two elements' positions (links checked by the harness on every explored state); theorems carry size+1 < 2^64.",
+        "note": TB + " cstl_heap_promote_child's six-neighbour relinking is translated from the C AST on every run and proved to exchange the two nodes' positions with consistent parent links (heap_promote_child_refines + promoteChild_tie); the rest of heap.c is functional-model + correspondence (links checked by the harness on every explored state); theorems carry size+1 < 2^64.",
         "technique": "Lean 4 proof (invariant by induction over operation lists) + model/implementation correspondence check",
     },
     "C17": {
